@@ -27,53 +27,49 @@ func checkC15(r *Run) {
 		r1.Lost("idLast/newID", "counter field or newID not found")
 		return
 	}
-	// every FieldAddr of idLast is an operand of a sync/atomic call
-	for _, f := range c.Funcs {
-		eachInstr(f, func(in ssa.Instruction) {
-			fa, ok := in.(*ssa.FieldAddr)
-			if !ok {
-				return
+	// every use of the counter's address (followed through conversions and into the functions it is passed to) is an
+	// operand of a sync/atomic call
+	im := c.idModel()
+	for _, acc := range im.Accesses {
+		key := FuncName(acc.Fn) + "/idLast"
+		switch acc.Kind {
+		case "plain":
+			r1.Bad(key, acc.In.Pos(), "the id counter is accessed non-atomically (%s): concurrent callers can draw the same identifier", acc.In.String())
+		case "escape":
+			r1.Bad(key, acc.In.Pos(), "the id counter's address escapes to %s", acc.Call.Call.String())
+		case "add":
+			if !c.onlyCalledFrom(acc.Fn, newID, 0) {
+				r1.Bad(key, acc.In.Pos(), "the id counter is advanced outside newID")
+				continue
 			}
-			if _, fld := fieldOf(fa); fld != idF {
-				return
+			d, ok := constInt(acc.Call.Call.Args[1])
+			if !ok || d%2 == 0 {
+				r1.Bad(key, acc.In.Pos(), "the counter stride is not an odd constant: values repeat before 65536 draws")
+				continue
 			}
-			key := FuncName(f) + "/idLast"
-			for _, u := range *fa.Referrers() {
-				k, isCall := u.(*ssa.Call)
-				if !isCall {
-					r1.Bad(key, u.Pos(), "the id counter is accessed non-atomically (%s): concurrent callers can draw the same identifier", u.String())
-					continue
-				}
-				callee := k.Call.StaticCallee()
-				if callee == nil || callee.Pkg == nil || callee.Pkg.Pkg.Path() != "sync/atomic" {
-					r1.Bad(key, u.Pos(), "the id counter's address escapes to %s", k.Call.String())
-					continue
-				}
-				switch callee.Name() {
-				case "AddUint32":
-					if f != newID {
-						r1.Bad(key, u.Pos(), "the id counter is advanced outside newID")
-						continue
-					}
-					d, ok := constInt(k.Call.Args[1])
-					if !ok || d%2 == 0 {
-						r1.Bad(key, u.Pos(), "the counter stride is not an odd constant: values repeat before 65536 draws")
-						continue
-					}
-					r1.OK(key, u.Pos(), "atomic.AddUint32(&c.idLast, %d)", d)
-				case "StoreUint32":
-					if f != initID || initID == nil {
-						r1.Bad(key, u.Pos(), "the id counter is overwritten (atomic.StoreUint32) outside initID: a concurrent draw between the add and the store is rewound and identifiers are handed out twice")
-						continue
-					}
-					r1.OK(key, u.Pos(), "StoreUint32 only in initID")
-				case "LoadUint32":
-					r1.OK(key, u.Pos(), "atomic load")
-				default:
-					r1.Bad(key, u.Pos(), "unexpected atomic operation %s on the id counter", callee.Name())
-				}
+			r1.OK(key, acc.In.Pos(), "atomic.AddUint32(&c.idLast, %d)", d)
+		case "store":
+			if initID == nil || !c.onlyCalledFrom(acc.Fn, initID, 0) {
+				r1.Bad(key, acc.In.Pos(), "the id counter is overwritten (atomic.StoreUint32) outside initID: a concurrent draw between the add and the store is rewound and identifiers are handed out twice")
+				continue
 			}
-		})
+			r1.OK(key, acc.In.Pos(), "StoreUint32 only in initID")
+		case "load":
+			r1.OK(key, acc.In.Pos(), "atomic load")
+		default:
+			r1.Bad(key, acc.In.Pos(), "unexpected atomic operation %s on the id counter", acc.Call.Call.StaticCallee().Name())
+		}
+	}
+	if nAdd := func() int {
+		n := 0
+		for _, a := range im.Accesses {
+			if a.Kind == "add" {
+				n++
+			}
+		}
+		return n
+	}(); nAdd != 1 {
+		r1.Bad("newID/draw", newID.Pos(), "the id counter is advanced at %d places (want exactly one atomic add)", nAdd)
 	}
 	// initID callers
 	if initID != nil {
@@ -551,62 +547,65 @@ func (c *Ctx) ruleNewIDNonZero(r2 *RuleRep) {
 		r2.Lost("newID", "not found")
 		return
 	}
-	var draw *ssa.Call
-	eachInstr(newID, func(in ssa.Instruction) {
-		if k, ok := in.(*ssa.Call); ok {
-			if callee := k.Call.StaticCallee(); callee != nil && callee.Name() == "AddUint32" {
-				draw = k
-			}
-		}
-	})
+	drawF, draw := c.idModel().drawFn()
 	if draw == nil {
 		r2.Lost("newID/draw", "no atomic draw in newID")
-	} else {
+		return
+	}
+	// newID itself draws, or returns exactly what the drawing function returns
+	if drawF != newID {
 		for _, ret := range returnsOf(newID) {
-			v := c.Resolve(ret.Results[0])
-			key := "newID/return"
-			if call, callee := c.asCall(v); call != nil && callee == newID {
-				r2.OK(key, ret.Pos(), "returns a fresh draw (recursive newID)")
+			call, callee := c.asCall(c.Resolve(ret.Results[0]))
+			if call == nil || callee == nil || !c.onlyCalledFrom(drawF, callee, 0) && callee != drawF {
+				r2.Bad("newID/return", ret.Pos(), "newID returns %s, which is not the result of the counter's draw", describeVal(c.Resolve(ret.Results[0])))
+				return
+			}
+		}
+	}
+	for _, ret := range returnsOf(drawF) {
+		v := c.Resolve(ret.Results[0])
+		key := "newID/return"
+		if call, callee := c.asCall(v); call != nil && (callee == drawF || (callee == newID && drawF == newID)) {
+			r2.OK(key, ret.Pos(), "returns a fresh draw (recursive)")
+			continue
+		}
+		cv, ok := v.(*ssa.Convert)
+		if !ok || cv.X != ssa.Value(draw) {
+			// loop form: phi of converts
+			r2.Bad(key, ret.Pos(), "newID returns %s, which is not the truncated result of its own atomic draw", describeVal(v))
+			continue
+		}
+		if b, ok := cv.Type().Underlying().(*types.Basic); !ok || b.Kind() != types.Uint16 {
+			r2.Bad(key, ret.Pos(), "the id is not the 16-bit truncation of the draw")
+			continue
+		}
+		dom := false
+		for _, b := range drawF.Blocks {
+			iff := blockIf(b)
+			if iff == nil {
 				continue
 			}
-			cv, ok := v.(*ssa.Convert)
-			if !ok || cv.X != ssa.Value(draw) {
-				// loop form: phi of converts
-				r2.Bad(key, ret.Pos(), "newID returns %s, which is not the truncated result of its own atomic draw", describeVal(v))
+			bin, ok := iff.Cond.(*ssa.BinOp)
+			if !ok || bin.X != ssa.Value(cv) {
 				continue
 			}
-			if b, ok := cv.Type().Underlying().(*types.Basic); !ok || b.Kind() != types.Uint16 {
-				r2.Bad(key, ret.Pos(), "the id is not the 16-bit truncation of the draw")
+			if k, ok := constInt(bin.Y); !ok || k != 0 {
 				continue
 			}
-			dom := false
-			for _, b := range newID.Blocks {
-				iff := blockIf(b)
-				if iff == nil {
-					continue
-				}
-				bin, ok := iff.Cond.(*ssa.BinOp)
-				if !ok || bin.X != ssa.Value(cv) {
-					continue
-				}
-				if k, ok := constInt(bin.Y); !ok || k != 0 {
-					continue
-				}
-				edge := 1
-				if bin.Op == token.NEQ {
-					edge = 0
-				} else if bin.Op != token.EQL {
-					continue
-				}
-				if DominatedByEdge(newID, ret, b, edge, PathQ{}) {
-					dom = true
-				}
+			edge := 1
+			if bin.Op == token.NEQ {
+				edge = 0
+			} else if bin.Op != token.EQL {
+				continue
 			}
-			if dom {
-				r2.OK(key, ret.Pos(), "returns the draw only on the `id != 0` edge")
-			} else {
-				r2.Bad(key, ret.Pos(), "newID can return 0 (no dominating zero test on the returned value)")
+			if DominatedByEdge(drawF, ret, b, edge, PathQ{}) {
+				dom = true
 			}
+		}
+		if dom {
+			r2.OK(key, ret.Pos(), "returns the draw only on the `id != 0` edge")
+		} else {
+			r2.Bad(key, ret.Pos(), "newID can return 0 (no dominating zero test on the returned value)")
 		}
 	}
 }
